@@ -5,6 +5,14 @@ V = "/verif"
 props = [json.loads(l) for l in open(V + "/properties.jsonl")]
 
 CLAIMED = {
+ "C17": dict(
+    text="Static rules over lib/ext2fs/unix_io.c, undo_io.c, test_io.c, io_manager.c and rw_bitmaps.c decided on every CFG path: "
+         "(a) coherence: each cache-bypassing device write in a mutating slot is dominated by flush_cached_blocks(FLUSH_INVALIDATE), whose loop leaves no in-use entry except on write error; "
+         "(b) durability: unix_flush returns 0 only after write-out and fsync, close flushes first, a dirty victim is written before reuse; "
+         "(c) error flow (path-sensitive constant propagation): a non-zero result of every internal write/flush call reaches the slot's return value, syscall results are never discarded; "
+         "(d) lock discipline (must-hold lockset dataflow, two contexts for FLUSH_NOLOCK): cache fields under CACHE_MTX, bounce buffer and seek/transfer pairs under BOUNCE_MTX, stats under STATS_MTX, no call acquires a held mutex, "
+         "locks balanced; shared bitmap updates of the threaded loader under its mutex, threads joined before the result is used. Necessary conditions of C17 for all histories/schedules; does not compute cache contents.",
+    ref="§4 C17", technique="static analysis: dominance/must-pass-through, path-sensitive error-flow, must-hold lockset dataflow, lock-order check over clang CFGs"),
  "C13": dict(
     text="GUARD/WHO rules over clang CFGs: the open(2) mode in unix_open derives from IO_FLAG_RW only, IO_FLAG_RW in ext2fs_open2 from EXT2_FLAG_RW only, "
          "and in every tool (e2fsck -n, debugfs without -w, dumpe2fs, tune2fs -l, resize2fs -P, e2image, e2freefrag, e2undo -n, mke2fs -n) each store or argument "
